@@ -325,6 +325,15 @@ class SymmetryTranslator:
                     used_inequalities.append((op, lit, pos))
                 if not fine:
                     break
+            if fine:
+                # the `<` among the compared terms must admit an order at all (X < Y, Y < Z, Z < X never holds)
+                used_lits = [lit for _, lit, _ in used_inequalities]
+                order = nx.DiGraph(
+                    (str(lhs), str(rhs))
+                    for lit, lhs, rhs in inequalities[ComparisonOperator.LessThan]
+                    if lit in used_lits
+                )
+                fine = nx.is_directed_acyclic_graph(order)
             if fine and len(used_inequalities) > 0:
                 potential_equalities.append(set(equality))
                 potential_strict_inequalities.append(defaultdict(list))
